@@ -688,3 +688,18 @@ func S3r(tier string) *Scenario {
 	}
 	return scenFrom("S3r-short-auction-first", cfg, pre, bud, al, nil)
 }
+
+// S4w: four price levels. Books of up to 4 bids over prices {1,2,3,10} so that the clearing-price
+// search runs over 4 distinct levels (its probe path differs from the 2- and 3-level cases), with a
+// dust-maker level (10) and a worth bid that converts to different quantities at every level.
+func S4w(tier string) *Scenario {
+	s := S4(tier, "5", "5", "5", false)
+	s.al.BatchPrices = []string{"1", "2", "3", "10"}
+	s.al.WorthAmts = []string{"1", "5"}
+	s.al.ManyAmts = []string{"3"}
+	s.al.Bidders = []string{"bid1", "bid2"}
+	s.Preamble = s.Preamble[:3]
+	s.Budget = Budget{"bid": 4, "block": 1}
+	s.Name = "S4w-orderbook-4-levels"
+	return s
+}
